@@ -8,6 +8,7 @@ import (
 
 func TestC13(t *testing.T) {
 	runProp(t, "C13", func(e *env) {
+		e.coldStage(11, 17, 18, 19, 26)
 		r := e.r
 		eval := func(kind string, in []byte) error {
 			decisive, err := c13Check(in, true)
@@ -66,6 +67,38 @@ func TestC13(t *testing.T) {
 				}
 				if !run("token-table", pre) {
 					break
+				}
+			}
+		}
+		// 1a. well-formed multi-byte UTF-8 sequences where whitespace or a token may start (rune-
+		// based classification: code points whose low byte is a whitespace byte, Unicode spaces)
+		if e.enumStage("multibyte", "every 2-byte UTF-8 sequence, U+2000..U+20FF, U+3000, U+FEFF and U+1F600..U+1F63F after 4 whitespace prefixes, in front of 6 tokens", true) {
+			var seqs [][]byte
+			for a := 0xc2; a <= 0xdf; a++ {
+				for b := 0x80; b <= 0xbf; b++ {
+					seqs = append(seqs, []byte{byte(a), byte(b)})
+				}
+			}
+			for cp := rune(0x2000); cp <= 0x20ff; cp++ {
+				seqs = append(seqs, []byte(string(cp)))
+			}
+			seqs = append(seqs, []byte("\u3000"), []byte("\ufeff"), []byte("\u0920"), []byte("\u1680"))
+			for cp := rune(0x1f600); cp <= 0x1f63f; cp++ {
+				seqs = append(seqs, []byte(string(cp)))
+			}
+			buf := make([]byte, 0, 32)
+		mb:
+			for si, sq := range seqs {
+				if !e.cfg.Mine(si) {
+					continue
+				}
+				for _, pre := range []string{"", " ", "\n\t", "    \r\n   "} {
+					for _, tok := range []string{"null", "true", "1", `"x"`, "[]", ""} {
+						buf = append(append(append(buf[:0], pre...), sq...), tok...)
+						if !run("multibyte", buf) {
+							break mb
+						}
+					}
 				}
 			}
 		}
